@@ -35,6 +35,10 @@ func (r *Run) RacePass(args ...string) {
 		}
 		Fatalf("race pass: %v\n%s", err, tail(stderr.String(), 40))
 	}
+	// the free-running bodies evaluate the same oracle natively: a failure there is a violation too
+	for _, m := range freeRunRe.FindAllStringSubmatch(stderr.String(), -1) {
+		r.Report(Violation{Class: m[1], Summary: "free-running execution (no scheduler): " + m[2], Artefact: map[string]any{"free_running": true, "args": args, "detail": m[2]}})
+	}
 	reports := strings.Split(stderr.String(), "==================\n")
 	n := 0
 	seen := map[string]bool{}
@@ -60,6 +64,8 @@ func (r *Run) RacePass(args ...string) {
 	}
 	r.Set("race_pass", map[string]any{"reports_in_dawgs_code": int64(n), "iterations_summary": strings.TrimSpace(tail(stdout.String(), 3)), "sampling": true})
 }
+
+var freeRunRe = regexp.MustCompile(`(?m)^FREE-RUN-VIOLATION class=(\S+) (.*)$`)
 
 var frameRe = regexp.MustCompile(`(?m)^\s+(github\.com/specterops/dawgs/\S+)\(\)$`)
 
